@@ -9,6 +9,8 @@ import XalanModel.Generated.C19_Construct
 import XalanModel.C19.OStreamProofs
 import XalanModel.C19.XMapProofs
 import XalanModel.C19.XBDequeProofs
+import XalanModel.C19.StrCacheProofs
+import XalanModel.C19.XArrProofs
 /-!
 # C19 — pluggable memory manager: balanced use; allocation failure is survivable
 
@@ -544,6 +546,75 @@ theorem deque_null_block_counterexample :
      q.1 = .oom ∧ q.2.1.idx.items = [] ∧ q.2.1.size = (.ok, 0) ∧
      (let q2 := XDeque.pushBack true 5 q.2.1 q.2.2
       q2.1 = .ok ∧ q2.2.1.elems = [5] ∧ (q2.2.1.destroy q2.2.2).live = [] ∧ (q2.2.1.destroy q2.2.2).bad = 0)) := by
+  decide
+
+/-- **`XalanDOMStringCache`: every string is destroyed at most once, and the two lists partition the live strings.**
+For every history of `get()` / `release(s)` / `reset()` / `clear()` on a cache with any bound `m`, started empty
+(`release` is given any string ever handed out, busy or not): no string is destroyed twice or destroyed while not
+alive (`bad = 0`, the ledger being the one of the cache's string allocator), the strings alive in the allocator are
+exactly — as a multiset — the strings named by `m_busyList ++ m_availableList` (so each live string is in exactly one
+of the lists, once, and neither list names a destroyed string), and the destructor (`clear()`) leaves nothing.
+`release()` keeps the available list within `m + 1` (`StrCache.release_bound`). -/
+theorem cache_release_destroys_once (ops : List StrCache.Op) (m : Nat) :
+    let r := StrCache.run false { c := { maxSize := m } } ops
+    r.l.bad = 0 ∧ r.l.live.Perm (r.c.busy ++ r.c.avail) ∧ (StrCache.clear r.c r.l).2.Balanced := by
+  intro r
+  have h : Ledger.Holds r.l r.c.named [] 0 :=
+    StrCache.run_inv ops { c := { maxSize := m } } 0 ⟨fun a => by simp [StrCache.named], rfl⟩
+  refine ⟨h.2, List.perm_iff_count.mpr (fun a => by simpa [StrCache.named] using h.1 a), rfl, ?_⟩
+  simpa [StrCache.clear] using h.2
+
+/-- **Mutation "release() returns right after destroying the string" (before `m_busyList.erase(i)`): the busy list keeps
+naming the destroyed string and `reset()` destroys it a second time.**  Bound 1, four strings borrowed at once, three
+released: the third release finds 2 > 1 strings available and destroys its string; with the early return `reset()`
+then destroys it again (`bad = 1`); as written the history is clean.  With the default bound the same needs 102
+strings borrowed at once. -/
+theorem cache_early_return_release_counterexample :
+    let ops : List StrCache.Op := [.get, .get, .get, .get, .release 0, .release 1, .release 2, .reset]
+    (StrCache.run true { c := { maxSize := 1 } } ops).l.bad = 1 ∧
+    (StrCache.run false { c := { maxSize := 1 } } ops).l.bad = 0 ∧
+    (StrCache.run false { c := { maxSize := 1 } } ops).c.busy = [] := by
+  decide
+
+/-- As written, `reset()` samples `m_availableList.size()` once, before its loop: when the available list is within the
+bound at that moment, EVERY busy string is moved to it, however many there are — the bound limits `release()`, not
+`reset()` (no string is lost or destroyed twice either way; see `cache_release_destroys_once`). -/
+theorem cache_reset_ignores_bound_example :
+    let r := StrCache.run false { c := { maxSize := 1 } } [.get, .get, .get, .get, .reset]
+    r.c.avail.length = 4 ∧ r.l.bad = 0 ∧ r.l.live.length = 4 := by
+  decide
+
+/-- **`XalanArrayAllocator`: balanced, and a refusal is contained.**  For every history of `allocate(n)` / `reset()` /
+`clear()` on an allocator with any block size, under any one-shot refusal `k`, with `clear()` as written (`cd = false`)
+or destroying its vectors (`cd = true`): after the destructor the outstanding blocks are exactly the blocks the
+allocator has LOST (the vector of a `createEntry` whose `push_back` was refused — create-then-push — and, as written, the
+vectors dropped by `clear()`), and nothing was freed twice.  With `clear()` destroying its vectors and nothing refused,
+nothing is lost: the history is balanced. -/
+theorem array_allocator_balanced_and_failure_contained (cd : Bool) (ops : List XArr.Op) (bs k : Nat) :
+    let r := XArr.run cd ops { bs := bs } { failAt := k }
+    let l := r.1.destroy r.2
+    l.live.Perm r.1.lost ∧ l.bad = 0 ∧ (cd = true → k = 0 → l.Balanced) := by
+  intro r l
+  have hi : XArr.Inv r.1 r.2 0 :=
+    XArr.run_inv cd ops { bs := bs } { failAt := k } 0 ⟨fun a => by simp [XArr.owned], rfl⟩
+  have hd := Ledger.holds_nil_perm (XArr.destroy_spec r.1 r.2 0 hi)
+  refine ⟨hd.1, hd.2, ?_⟩
+  intro hcd hk
+  subst hcd; subst hk
+  have hc : XArr.Clean r.1 r.2 := XArr.run_clean ops { bs := bs } { failAt := 0 } ⟨rfl, rfl⟩
+  have hp := hd.1
+  rw [hc.2] at hp
+  exact ⟨List.Perm.eq_nil hp, hd.2⟩
+
+/-- **Code as written: `XalanArrayAllocator::clear()` clears its list without destroying the vectors the entries point
+to** ("Clear the instance, and release all allocated memory"): one `allocate`, `clear()`, destructor — the vector object
+and its buffer are still outstanding; with the vectors destroyed as the destructor does
+(proposed/C19-array-allocator-clear.diff) the same history is balanced. -/
+theorem array_allocator_clear_leaks_counterexample :
+    (let r := XArr.run false [.alloc 2, .clear] { bs := 4 } {}
+     (r.1.destroy r.2).live.length = 2 ∧ r.1.lost.length = 2) ∧
+    (let r := XArr.run true [.alloc 2, .clear, .alloc 3] { bs := 4 } {}
+     (r.1.destroy r.2).Balanced) := by
   decide
 
 /-- non-vacuity: the hypotheses of the list/vector theorems are met by non-trivial reachable
